@@ -38,7 +38,7 @@ SAMPLE_FIELDS = ('a', 'b', 0, 1)
 # the second visit rebuilds the record without the BadType field, so neither side
 # reports the clash.  The sampled generator stays away from exactly that class:
 # (no common instance) and (a list/record object reachable along two paths).
-AVOID_SHARED_COMPOSITE_CLASH = True
+AVOID_SHARED_COMPOSITE_CLASH = os.environ.get('LV_C16_NO_AVOID') != '1'
 K_SHARED_CLASH = 'clash_lost_in_shared_composite'
 MAX_DEPTH = 3
 
@@ -341,6 +341,8 @@ def classify(case, orc):
     n = len(ins)
     multi = not (n == 2 and len(case['ops']) == 1)
     labels.append('multi' if multi else 'pair')
+    if multi:
+        labels.append('multi:clash' if orc['clash'] else 'multi:clash_free')
     ncomp = sum(1 for t in ins if tm.is_composite(t))
     if orc['clash']:
         labels.append('meet:bot')
@@ -463,7 +465,7 @@ def run_exhaustive(ctx, col):
             ks = sorted((kinds[i], kinds[j]))
             lab.append('exh:top:%s/%s' % (ks[0], ks[1]))
             sample = None
-            if nt and len(col.samples) < 2:
+            if nt and m != BOT and comp[i] and comp[j] and len(col.samples) < 4:
                 sample = {'a': tm.show(ta), 'b': tm.show(tb), 'meet': tm.show(m),
                           'sub_domain': 'exhaustive'}
             col.case('x%d:%d' % (i, j), nt, lab, sample)
@@ -529,7 +531,7 @@ def strategy():
                 i = nodes[i][1]
             return i
 
-        def variant(i, maxd, p_any, top=False):
+        def variant(i, maxd, p_any, top=False, contra=1):
             """A term related to node i: mostly a generalisation (so that two variants
             of one base have a meet that is neither of them), sometimes the same
             object, sometimes a contradicting piece."""
@@ -548,7 +550,7 @@ def strategy():
                     return push('atom', 'Singular', 0)
                 if r >= 34 and p == 'Str':
                     return push('atom', 'Sequential', 0)
-                if r == 33:
+                if 33 - contra < r <= 33:
                     return atom()               # likely a contradiction
                 return push('atom', p, 0)
             if maxd == 0:
@@ -556,7 +558,7 @@ def strategy():
             if k == 'list':
                 if r >= 38:
                     return push('atom', 'Sequential', 0)
-                c = variant(p, maxd - 1, p_any)
+                c = variant(p, maxd - 1, p_any, False, contra)
                 return push('list', c, depths[c] + 1)
             if r >= 38:
                 return push('atom', 'Singular', 0)
@@ -570,7 +572,7 @@ def strategy():
             for f, c in p:
                 if d(12 if kind == 'closed' else 4) == 0:
                     continue                    # drop a field
-                fs.append([f, variant(c, maxd - 1, p_any)])
+                fs.append([f, variant(c, maxd - 1, p_any, False, contra)])
             if d(8) == 0:
                 have = set(f for f, _ in fs)
                 extra = [f for f in SAMPLE_FIELDS if f not in have]
@@ -579,9 +581,18 @@ def strategy():
                     fs.sort(key=lambda fc: tm.fkey(fc[0]))
             return push(kind, fs, 1 + max([depths[c] for _, c in fs] or [0]))
 
-        mode = d(10)
+        mode = d(11)
         if mode == 0:                           # unrelated terms
             a, b = term(MAX_DEPTH, True), term(MAX_DEPTH, True)
+        elif mode == 10:
+            # one composite object in several fields of a (as built-in signatures do),
+            # separately perturbed copies of it in b
+            base = term(MAX_DEPTH - 1, True)
+            fs = fieldset() or ['a', 0]
+            ka, kb = ('open', 'closed')[d(2)], ('open', 'closed')[d(2)]
+            a = push(ka, [[f, base] for f in fs], depths[base] + 1)
+            vs = [[f, variant(base, MAX_DEPTH - 1, 6 + d(8), True, 1 + d(5))] for f in fs]
+            b = push(kb, vs, 1 + max(depths[c] for _, c in vs))
         else:
             base = term(MAX_DEPTH, True)
             if mode <= 2:                       # the base itself and a variant
@@ -636,7 +647,7 @@ def run_sampled(ctx, col):
         for nlab in res['notes']:
             labels.append('note:' + nlab)
         sample = None
-        if nt and not orc['clash']:
+        if nt and not orc['clash'] and 'meet:new_term' in labels and len(col.samples) < 2:
             sample = {'terms': [tm.show(t) for t in orc['inputs']],
                       'constraints': case['ops'],
                       'result': [tm.show(t) for t in orc['expected']],
@@ -742,6 +753,38 @@ def minimise(case, bucket):
                     break
             if progress:
                 break
+        if not progress:
+            # hoist: replace roots by their children (all roots through the same
+            # field / list element, or one root at a time)
+            def deref(i):
+                while case['nodes'][i][0] == 'ref':
+                    i = case['nodes'][i][1]
+                return i
+
+            def child_map(i):
+                k, p, _ = case['nodes'][deref(i)]
+                if k == 'list':
+                    return {'[]': p}
+                if k in ('open', 'closed'):
+                    return {repr(f): c for f, c in p}
+                return {}
+            maps = [child_map(r) for r in case['roots']]
+            tries = []
+            for key in sorted(set.intersection(*[set(m) for m in maps]) if maps else ()):
+                tries.append([m[key] for m in maps])
+            for x, m in enumerate(maps):
+                for key in sorted(m):
+                    tries.append([m[key] if y == x else r
+                                  for y, r in enumerate(case['roots'])])
+            for roots2 in tries:
+                if budget[0] <= 0:
+                    break
+                budget[0] -= 1
+                c2 = {'nodes': case['nodes'], 'roots': roots2, 'ops': case['ops']}
+                if fails(c2):
+                    case = prune(c2)
+                    progress = True
+                    break
         if not progress and len(case['ops']) > 1 and budget[0] > 0:
             for x in range(len(case['ops'])):
                 c2 = dict(case, ops=case['ops'][:x] + case['ops'][x + 1:])
